@@ -111,6 +111,7 @@ FAMILIES = {
     "hard-breaks": lambda n: "line\\\n" * (80 * n),
     "underscores": lambda n: "_a_b" * (120 * n),
     "tildes": lambda n: "~a~ " * (120 * n),
+    "mixed-atoms": lambda n: " ".join(f"`c{i}` [l{i}](u{i}) {{% t{i} %}} <b>w{i}</b>" for i in range(60 * n)),
 }
 
 
@@ -180,6 +181,12 @@ def run(chk: Check) -> None:
                 if err:
                     nbp += 1
                     chk.fail("property", {"family": name, "size": k, "opts": o, "doc": doc[:80]}, f"pumped family {name}: {err}", classify)
+                elif k == 1:
+                    # the large inputs are also checked for well-formed output (a paragraph with hundreds of constructs, thousands of words)
+                    why = wellformed(doc, out, o)
+                    if why:
+                        nbp += 1
+                        chk.fail("property", {"family": name, "size": k, "opts": o, "doc": doc, "out": out[:500]}, f"malformed output on pumped family {name}: {why}", classify)
                 times.append((k, dt))
         t1 = max(dt for k, dt in times if k == 1)
         t4 = max(dt for k, dt in times if k == 4)
